@@ -59,7 +59,7 @@ PROPS = {
     ),
     "C09": _p(
         "",
-        "Choice-list fidelity with interleaved rows and sparse extra columns (tracers), itemset wiring with independent filters/randomize/seed, or_other, external sources (symbolic file stem) declared once with the conventional URI or rejected on id clash.",
+        "Choice-list fidelity with interleaved rows and sparse extra columns (tracers), itemset wiring with independent filters/randomize/seed, or_other, external sources (symbolic file stem) declared once with the conventional URI or rejected on id clash; value/label parameters and file-type defaults of select-from-file; the itemsets CSV equals the sparse external_choices sheet image for select_one_external at 5 nestings (csv.writer modelled, S6).",
         "DESIGN.md §3 C09, §8",
     ),
     "C10": _p(
@@ -86,7 +86,7 @@ PROPS = {
     ),
     "C14": _p(
         "; solver-chosen set iteration orders (hash-seed model); two-thread interleaving model of the shared lexer encoded directly in z3 from the sources of re.Scanner.scan and the tokenizer",
-        "Hash-seed independence with every small set iterated by pyxform code permuted by the solver; regeneration and conversion histories with the caches on; bounded schedules of two threads in the shared lexer.",
+        "Hash-seed independence with every small set iterated by pyxform code permuted by the solver; regeneration and conversion histories with a pure-Python model of the lru caches (S12: CrossHair bypasses functools.lru_cache); module-level set constants included in the set-order model; bounded schedules of two threads in the shared lexer.",
         "DESIGN.md §3 C14, §4, §8",
         " Thread schedules only for the one shared mutable object found (the lexer), statement-level atomicity, 2 threads.",
     ),
@@ -103,7 +103,7 @@ PROPS = {
     ),
     "C17": _p(
         "",
-        "24 catalogued breaking mutations at symbolic sites with symbolic blank-row offsets and offending text: PyXFormError naming the subject and the right row; totality (only PyXFormError) over all 16^3 row sequences of the extended vocabulary and over symbolic strings into parameter/package-name validators.",
+        "26 catalogued breaking mutations at symbolic sites with symbolic blank-row offsets and offending text: PyXFormError naming the subject and the right row; totality (only PyXFormError) over all 16^3 row sequences of the extended vocabulary and over symbolic strings into parameter/package-name validators.",
         "DESIGN.md §3 C17, §8",
     ),
     "C18": _p(
